@@ -63,7 +63,7 @@ def iwstrtod (str : Bytes) : Float × Nat × Bool := Id.run do
       e := (ch p : Int) - 48
       p := p + 1
       while isDigitC (ch p) do
-        e := e * 10 + ((ch p : Int) - 48)
+        if e < 100000 then e := e * 10 + ((ch p : Int) - 48)
         p := p + 1
       e := e * esign
     else if !isDigitC (ch (a - 1)) then
